@@ -2,7 +2,7 @@ from lanes import *  # noqa
 
 PROP = {
         "level": "exploration",
-        "level_text": "Seeded exploration with bounded-progress oracles on logical steps: Receiver::exec is polled by hand under a virtual clock while a scripted processor answers every call with a seeded outcome (Ok, permanent failure, retryable failure with any remainder, synchronous panic, panic inside the returned future, futures that stay Pending) and the sender side sends, registers (panicking) flush/empty callbacks and drops the sender at seeded points; the oracle checks attempts per batch, non-decreasing capped back-off that restarts per batch, a retry budget that does not depend on earlier batches, exactly-once callbacks within two new batches, delivery of everything queued and termination within (outstanding batches x 11 + 2) iterations after the drop, and that no panic escapes. The blocking entry points are called from every calling context x channel state, and spawned worker threads are joined after the sender drop. Liveness is decided only as bounded progress; held-on-what-was-observed, not a proof over all outcome sequences or schedules.",
+        "level_text": "Seeded exploration with bounded-progress oracles on logical steps: Receiver::exec is polled by hand under a virtual clock while a scripted processor answers every call with a seeded outcome (Ok, permanent failure, retryable failure with any remainder, synchronous panic, panic inside the returned future, futures that stay Pending) and the sender side sends, registers (panicking) flush/empty callbacks and drops the sender at seeded points; the oracle checks attempts per batch, non-decreasing capped back-off that restarts per batch, a retry budget that does not depend on earlier batches, exactly-once callbacks within two new batches, delivery of everything queued and termination within (outstanding batches x 11 + 2) iterations after the drop, and that no panic escapes. The blocking entry points are called from every calling context x channel state, and spawned worker threads are joined after the sender drop. Liveness is decided only as bounded progress; held-on-what-was-observed, not a proof over all outcome sequences or schedules. A `sampler` section samples the channel's metrics with samplers that park, panic or re-enter the channel while a real receiver thread runs: items sent meanwhile must be processed before the parked sampler is released (3-of-3 repetitions), and after a sampler panic sends, flushes and receiver termination must still work.",
         "level_note": "Trusts the hand-written executor (one yield per wait), the event-log parser in harness/mon/src/bin/c08.rs (batches are told apart by item identity) and std's catch_unwind. The only wall-clock verdict is the deadlock rule of the calling-context matrix (a blocking call with timeout T that is not back after 100*T + 10 s); every other time limit is a watchdog that yields `inconclusive`. The emitters' worker threads (emit_file / emit_otlp) are exercised by the end-to-end lanes of other monitors, not here.",
         "technique": "runtime monitoring: virtual-time polling of the real Receiver::exec with scripted processor outcomes and an event-log oracle (including sends and the drop of the last sender made from inside the receiver's window through callbacks and the H-B hook points); calling-context matrix under tokio runtimes incl. extreme timeouts; woken-and-lost-the-slot blocking sends timed against their original deadline (3 of 3 repetitions); bounded joins of spawned workers; every section runs on a bounded helper thread so the monitor always ends with a result; Miri on the virtual-time section",
         "assumptions": [
